@@ -9,7 +9,7 @@ def tasks(tier):
             + contract_tasks("contracts.progress", "C05", tier=tier) + lemma_tasks("contracts.progress", "C05"))
             + contract_tasks("contracts.run_prelude", "C05", tier=tier)
             # ('incomparable delays' is one of the internal errors C05 names: the order on delays and its use in update_min)
-            + contract_tasks("contracts.tiered_time", "C08", names=["IntervalLt", "IntervalAdd", "TimeLt", "TimeAdd"])
+            + contract_tasks("contracts.tiered_time", "C08")
             + contract_tasks("contracts.scenario_min", "C05")
             + other_tasks("contracts.closure", "C05", "bounded"))
 
